@@ -26,7 +26,7 @@ def handler(case):
     viols = []
     T = F(case["spec"]["ctrl"]["T"]); dt = F(case["dt"])
     steps = [r for r in info if r["phase"] == "step"]
-    last_failed = max([r["k"] for r in steps if r["failed"]] + [0])
+    last_failed = max([r["k"] for r in steps if r["failed"] or r.get("ict_failed")] + [0])
     bound = math.ceil(T / dt) + 3
     normal_from = None
     for r in steps:
@@ -69,18 +69,31 @@ def gen(rng, nm, na):
     cases = [ctl.gen_scenario(rng, max_lines=rng.choice([3, 5, 7])) for _ in range(nm)]
     for _ in range(na):
         c = ctl.gen_scenario(rng, max_lines=5, ctrl="main")
-        if rng.random() < 0.5:
+        if rng.random() < 0.7:
             c["spec"]["ctrl"]["ict"] = fallible_ict(rng, c["spec"])
+            if rng.random() < 0.85:
+                # communication faults overlapping the power faults: an ICT line is out while sections are isolated / reconnected
+                ict = c["spec"]["ctrl"]["ict"]
+                dt = F(c["dt"])
+                for k, fl in list(c["faults"].items()):
+                    for name, rep in list(fl):
+                        if name.startswith("I") or rng.random() < 0.2:
+                            continue
+                        # out of service around the increment in which the repaired line's section is reconnected
+                        kr = int(k) + math.ceil(F(rep) / dt)
+                        for _ in range(rng.choice([1, 1, 2])):
+                            kk = max(1, kr - rng.choice([0, 1, 1, 2]))
+                            c["faults"].setdefault(str(kk), []).append([f"IL{rng.randrange(len(ict['lines']))}", str(rng.choice([F(2), F(3), F(7, 2)]))])
         cases.append(c)
     return cases
 
 
 def run(res):
     rng = random.Random(res.seed * 10007 + 73)
-    nm, na = (50, 25) if res.tier == "quick" else (1500, 500)
+    nm, na = (50, 50) if res.tier == "quick" else (1500, 1000)
     res.rule = ("fault histories as in C05 (1-4 overlapping line faults, microgrids in all modes, ties) followed by a quiet tail of ceil((T+3)/dt)+6 increments; "
                 "manual control (model + implementation) and MainController with no ICT network or with a random ICT network in which ~20% of sensors / "
-                "intelligent switches have no ICT node (implementation only). non-trivial = distinct (lines, any fault, increments until normal, microgrid, automatic)")
+                "intelligent switches have no ICT node and communication lines fail and are repaired while sections are isolated / reconnected (implementation only). non-trivial = distinct (lines, any fault, increments until normal, microgrid, automatic)")
     run_cases(res, gen(rng, nm, na), handler, compare)
 
 
